@@ -185,8 +185,11 @@ def build_ops():
                            ("sh.create([(%s, 1)])" % r, "setattr"), ("sh[%s] = 1" % r, "setattr"),
                            ("setattr(sh.data, %s, 1)" % r, "setattr"),
                            ("sh.setdefault(%s, 1)" % r, "setdefault"), ("sh.insert(0, %s, 1)" % r, "insert")):
-            grp = "field added through %s" % path + (": " + label if path == "setattr" else "")
-            op(text, "invalid:" + grp, lambda st: (st, ("ok", ANY)))
+            if name == "_show":      # one defect whatever the way in: the name resolves on the Data object already
+                grp = "any way of adding a field: " + label
+            else:
+                grp = "field added through %s" % path + (": " + label if path == "setattr" else "")
+            op(text, "invalid:" + grp, lambda st: (st, None))        # raising or ignoring: both fine
     return ops
 
 
@@ -311,7 +314,7 @@ def expand(arg):
                                dict(init=INIT, history=texts(hist), op=text, got_state=gd, expected_state=expdump(st2),
                                     state_layout="(ordered fields, raw Data.__dict__ items, share stamp, deck, store attached, store stamp)"))
                 continue
-            if not matches(got, exp, ns):
+            if exp is not None and not matches(got, exp, ns):
                 part.violation("%s|%s" % (name, "raises " + got[1] if got[0] == "exc" else
                                           ("no " + exp[1] if exp[0] == "exc" and exp[1] is not ANY else "wrong result")),
                                "; ".join(texts(h2)),
@@ -337,10 +340,53 @@ def observe_shard(arg):
     return part
 
 
+FUNCS = {}
+
+
+def _pool_call(arg):
+    name, payload = arg
+    try:
+        return ("ok", FUNCS[name](payload))
+    except BaseException as ex:      # harness error inside a worker
+        import traceback
+        return ("broken", "%r\n%s" % (ex, traceback.format_exc()))
+
+
+class Workers:
+    """One pool of forked workers kept for all BFS levels (core.pmap forks a new pool per call, and a
+    freshly forked worker is slow until its pages have been copied)."""
+
+    def __init__(self):
+        self.pool = None
+        if core.NPROC > 1:
+            import multiprocessing
+            self.pool = multiprocessing.get_context("fork").Pool(core.NPROC)
+
+    def map(self, name, items):
+        items = [(name, it) for it in items]
+        if self.pool is None or len(items) <= 1:
+            res = [_pool_call(it) for it in items]
+        else:
+            res = self.pool.map(_pool_call, items, 1)
+        for tag, val in res:
+            if tag != "ok":
+                self.close()
+                raise core.BrokenCheck("worker failed: " + val)
+        return [val for _, val in res]
+
+    def close(self):
+        if self.pool is not None:
+            self.pool.terminate()
+            self.pool = None
+
+
 def chunks(lst, n):
     n = max(1, min(n, len(lst)))
     size = (len(lst) + n - 1) // n
     return [lst[i:i + size] for i in range(0, len(lst), size)]
+
+
+FUNCS.update(expand=expand, observe=observe_shard)
 
 
 def run():
@@ -354,12 +400,13 @@ def run():
     seen = {canon(ns)}
     level = [((), ST0)]
     ck.part.traces += 1
-    ck.merge(core.pmap(observe_shard, [(level,)]))
+    workers = Workers()
+    ck.merge(workers.map("observe", [(level,)]))
     per_level = [1]
     for d in range(depth):
         if not level:
             break
-        results = core.pmap(expand, [(c,) for c in chunks(level, core.NPROC * 4)])
+        results = workers.map("expand", [(c,) for c in chunks(level, core.NPROC * 4)])
         nxt = []
         for part, new in results:            # shard order = BFS order: deterministic
             ck.part.merge(part)
@@ -371,10 +418,10 @@ def run():
                     if len(seen) % 997 == 3:
                         ck.part.sample(dict(history=texts(h), state=k))
         if nxt:
-            for p in core.pmap(observe_shard, [(c,) for c in chunks(nxt, core.NPROC * 2)]):
-                ck.part.merge(p)
+            ck.merge(workers.map("observe", [(c,) for c in chunks(nxt, core.NPROC * 2)]))
         per_level.append(len(nxt))
         level = nxt
+    workers.close()
     ck.part.states = len(seen)
     ck.coverage_extra.update(depth_bound=depth, new_states_per_level=per_level, operations=len(OPS),
                              fixpoint=not level)
